@@ -152,6 +152,9 @@ func c04History(c *Case) {
 		}
 		return dg.Tree(xgen.DefaultTree())
 	})
+	if c.Index%6 == 4 {
+		docs = append(append([]*xdoc.Doc(nil), docs...), c.docPool("deep", 2, func(dg *xgen.G) *xdoc.Doc { return dg.DeepTree() })...)
+	}
 	d0 := docs[g.Intn(len(docs))]
 	env := &xgen.Env{Doc: d0, Ctx: pickCtx(g, d0), Names: xgen.Names}
 	e := anyExpr(g, env)
